@@ -250,10 +250,17 @@ def run(chk, F, scope, rule="no-silent-wrap"):
     sites = inventory(F, SCOPES[scope])
     used = {}
     per = {}
+    TI = k1.TableIndex(F, table)
+    ents = {}
     for s in sites:
-        per.setdefault((k1.normfn(s.fn.path), s.what), []).append(s)
+        # the table line of this site: written for this function, the same function modulo closures, or a function this one
+        # is a private single-caller helper of; sites that share a line are counted against its quota together
+        ls = TI.lines(s.fn, s.what)
+        key = (k1.normfn(ls[0]["fn"]) if ls else k1.normfn(s.fn.path), s.what)
+        ents[key] = ls[:1]
+        per.setdefault(key, []).append(s)
     for (fnp, what), ss in sorted(per.items(), key=lambda kv: kv[0]):
-        ent = [e for e in table if e["fn"] == fnp and e["what"] == what]
+        ent = ents[(fnp, what)]
         for n, s in enumerate(ss):
             fk = "rink_core::" + fnp
             where = s.fn.where(s.bb, s.j) if s.j is not None else s.fn.where(s.bb)
